@@ -8,6 +8,46 @@ ALL = ["C%02d" % i for i in range(1, 20)]
 
 # id -> dict(category, technique, text, note, engine, design)
 CHECKS = {
+    "C03": dict(
+        category="model_checking",
+        engine="E1 Layer A",
+        technique="explicit-state enumeration of replica states (gap-free-prefix and one-forgiveness-period generators, closed under one level of merging) + real merge on all ordered pairs and on all ordered triples of one representative per (live, tombstone, cut-off) class",
+        text="All replica states of two generators that realise exactly the property's precondition are enumerated (deduplicated by full snapshot); commutativity, idempotence, agreement with the newer-per-key reference on every ordered pair, associativity and transitive exchange rounds on every ordered triple of class representatives, all with the real OrSWotSet::merge and compared through lookups.",
+        note="Bounded: 2 keys, 2-3 origins, <=4 operations per origin, 8-operation pool to depth 3 (quick) / 4 (thorough). Triples over class representatives only (capped at 100 / 250 per family; the cap is reported).",
+        design="DESIGN.md section 3, C03",
+    ),
+    "C05": dict(
+        category="model_checking",
+        engine="E1 Layer A",
+        technique="explicit-state enumeration: real diff vs independent reference on all ordered pairs of generator states (incl. purged replicas), diff applied actor-style in both batch orders, re-diff and mutual convergence checked",
+        text="For every ordered pair of replica states of the C03 generators the real OrSWotSet::diff is compared with a reference computed from the two snapshots (this decides 'lists a key exactly when ...'); the difference is applied as the keyspace actor applies a repair, in both batch orders, and the re-computed difference must be empty; both replicas then repair from each other and must expose the same live ids and stamps (the newer per key).",
+        note="The actor's batch glue (filter by will_apply at batch start, sort by stamp, source 1) is restated in 12 lines; its agreement with the real actor is checked by C02/C01. Same bounds as C03.",
+        design="DESIGN.md section 3, C05",
+    ),
+    "C08": dict(
+        category="model_checking",
+        engine="E1 Layer A",
+        technique="stateless DFS over timely delivery sequences with purge events on the real OrSWotSet; purge evaluated in every reached state; stale-operation probes; differential oracle purge vs no purge",
+        text="Local clauses: in every state reached by timely delivery sequences (pool with >1h gaps so purges really fire, both sources, up to 2 purge events anywhere) a purge is evaluated: lookups and live entries unchanged, only genuine tombstones older than their origin's cut-off are returned, cut-offs never decrease, and every operation from the deleting node not newer than a purged delete is refused by will_apply and by insert/delete on both sources without changing the state; histories with purges give the same lookups as the same history without them.",
+        note="Cluster clause (purging replicas converge like non-purging ones under timely delivery with skew) is explored by the Layer-A cluster model added later in this session; until then only the local clauses are decided. 2 keys, 2 origins, 10 stamps.",
+        design="DESIGN.md section 3, C08",
+    ),
+    "C09": dict(
+        category="model_checking",
+        engine="E1 clock states",
+        technique="explicit-state BFS over (clock value, newest stamp issued/accepted) driving the real HLCTimestamp::send/recv with injected wall-clock readings",
+        text="BFS to depth 4 (quick) / 6 (thorough) over clock states; every transition picks one of 10 raw wall readings (stall, +1/3/4 ms, +1 s, -4 ms, -1 s, -2 h, drift boundary) and send or recv of a 64-message grid (same/older/newer time, counters 0/1/65534/65535, own/other node id, drift-4ms/drift/drift+4ms). Postconditions of the statement are evaluated on every transition, errors must leave the clock bit-identical and must be justified.",
+        note="State merging by (clock, newest stamp) is sound because the oracle reads nothing else of the past. Wall clock injected through the cfg(datacake_verif) seam; quantisation to 4 ms stays real.",
+        design="DESIGN.md section 3, C09",
+    ),
+    "C10": dict(
+        category="exploration",
+        engine="E4",
+        technique="complete cartesian enumeration over boundary grids (round trips, all ordered pairs for ordering, all strings of a hostile grammar under catch_unwind)",
+        text="900 (quick) / 9k (thorough) valid field tuples: new/accessors/u64/text/archived round trips and 4 ms quantisation; every ordered pair compared against lexicographic order; from_str on all 65 536 strings a-b-c-d over 16 field spellings plus structural variants: Ok or Err, never a panic, accepted text re-prints to something that parses to the same value. Input-quantified property: exhaustive boundary enumeration is the fitting level.",
+        note="Values between grid points are not covered.",
+        design="DESIGN.md section 3, C10",
+    ),
     "C04": dict(
         category="model_checking",
         engine="E4/E1 Layer A",
